@@ -80,6 +80,10 @@ THEOREMS = [
     'CpProofs.C11.staticfile_rel_under_root',
     'CpProofs.C11.C11_len_contained',
     'CpProofs.C11.session_id_noslash_one_below',
+    # a78b01e: only the canonical spelling of an id is looked at / adopted
+    'CpProofs.C11.exists_stat_only_canonical',
+    'CpProofs.C11.exists_alias_untouched',
+    'CpProofs.C11.session_alias_not_adopted',
 ]
 LEVEL = 'proof'
 TECHNIQUE = ('Lean 4 proof over a transcription of posixpath.normpath/join/abspath, urllib.parse.unquote, staticdir / '
